@@ -102,11 +102,38 @@ class WorldGen:
         return _real_dt.date(2024, 1, 1) + _real_dt.timedelta(days=self.rng.randrange(0, 130))
 
     def new_zid(self) -> str:
+        if self.has("zid3"):
+            # 3-character ZIDs (legal: what zorg hands out after `zz`) that EXTEND a
+            # 2-character one: either order on a page, so a prefix match picks the wrong note
+            r = self.rng
+            pend = getattr(self, "_pending_base", None)
+            if pend and r.random() < 0.6:
+                self._pending_base = None
+                self.zids.append(pend)
+                return pend
+            if r.random() < 0.3:
+                two = [z for z in self.zids if len(z) == 9]
+                if two and r.random() < 0.5:
+                    z = r.choice(two) + r.choice(ZID_ALPHABET)
+                    if z not in self.zids:
+                        self.zids.append(z)
+                        return z
+                else:
+                    base = f"{short(self.old_date())}#{r.choice(ZID_ALPHABET)}{r.choice(ZID_ALPHABET)}"
+                    z = base + r.choice(ZID_ALPHABET)
+                    if not any(x.startswith(base) for x in self.zids):
+                        self._pending_base = base
+                        self.zids.append(z)
+                        return z
         d = short(self.old_date() if self.rng.random() < 0.7 or not self.zid_count else
                   _real_dt.datetime.strptime("20" + self.rng.choice(sorted(self.zid_count)), "%Y%m%d").date())
         n = self.zid_count.get(d, 0)
         self.zid_count[d] = n + 1
         z = f"{d}#{zid_suffix(n)}"
+        while z in self.zids:  # only with "zid3": a base handed out above
+            n += 1
+            self.zid_count[d] = n + 1
+            z = f"{d}#{zid_suffix(n)}"
         self.zids.append(z)
         return z
 
